@@ -48,7 +48,7 @@ fn run_c08(args: &Args, report: &Report) {
     let only = args.extra.get("only").cloned().unwrap_or_default();
     // sequential, deterministic histories
     let seq_shards = args.by_tier(32usize, 64);
-    let seq_per_shard = args.by_tier(20usize, 150);
+    let seq_per_shard = args.by_tier(40usize, 300);
     if only != "conc" {
         let a = args.clone();
         let r = report.clone();
@@ -61,7 +61,7 @@ fn run_c08(args: &Args, report: &Report) {
     }
     // concurrent stress histories
     let conc_shards = args.by_tier(16usize, 32);
-    let conc_per_shard = args.by_tier(8usize, 60);
+    let conc_per_shard = args.by_tier(12usize, 120);
     if only != "seq" {
         let a = args.clone();
         let r = report.clone();
@@ -78,11 +78,11 @@ fn run_c08(args: &Args, report: &Report) {
 
     if selftest(args) == 0 && only.is_empty() {
         let q = !args.is_thorough();
-        report.require("seq.histories", if q { 400 } else { 4000 });
-        report.require("seq.ops", if q { 10_000 } else { 100_000 });
-        report.require("seq.ok_imports", if q { 2_000 } else { 20_000 });
-        report.require("seq.failed_imports_db_compared", if q { 3_000 } else { 30_000 });
-        report.require("seq.announcements_checked", if q { 2_000 } else { 20_000 });
+        report.require("seq.histories", if q { 1000 } else { 15_000 });
+        report.require("seq.ops", if q { 25_000 } else { 400_000 });
+        report.require("seq.ok_imports", if q { 5_000 } else { 80_000 });
+        report.require("seq.failed_imports_db_compared", if q { 12_000 } else { 200_000 });
+        report.require("seq.announcements_checked", if q { 5_000 } else { 80_000 });
         report.require("seq.ok.commit_result", 300);
         report.require("seq.ok.execute_and_commit", 300);
         report.require("seq.ok.genesis", 200);
@@ -114,11 +114,11 @@ fn run_c08(args: &Args, report: &Report) {
         report.require("seq.fault.commit_fail.fired", 50);
         report.require("seq.fault.multi_height_batch", 10);
         report.require("seq.backend.memory", 100);
-        report.require("seq.backend.rocksdb", 20);
-        report.require("conc.histories", if q { 100 } else { 1000 });
-        report.require("conc.ok_imports", if q { 800 } else { 8000 });
+        report.require("seq.backend.rocksdb", 10);
+        report.require("conc.histories", if q { 150 } else { 3000 });
+        report.require("conc.ok_imports", if q { 1500 } else { 30_000 });
         report.require("conc.err.busy", 50);
-        report.require("conc.announcements_checked", if q { 800 } else { 8000 });
+        report.require("conc.announcements_checked", if q { 1500 } else { 30_000 });
         report.require("conc.overlapping_call_pairs", 100);
     }
 }
